@@ -91,7 +91,7 @@ macro_rules! dispatch_bytes {
 fn main() {
     run_lines(|p| {
         let bits: usize = p[1].parse().unwrap();
-        dispatch_bytes!(bits, run, (p), [0, 1, 2, 3, 4, 5, 6, 7, 8, 9, 12, 15, 16, 17, 31, 32, 33, 56, 57, 60, 63, 64,
+        dispatch_bytes!(bits, run, (p), [0, 1, 2, 3, 4, 5, 6, 7, 8, 9, 12, 15, 16, 17, 20, 24, 31, 32, 33, 56, 57, 60, 63, 64,
             65, 72, 96, 100, 120, 121, 127, 128, 129, 160, 192, 200, 250, 255, 256, 257, 320, 384, 440, 505, 512, 521,
             1024, 4090, 4096])
     });
